@@ -20,7 +20,7 @@ struct Round15 {
         if (x != x || std::isinf((long double)x)) return;
         auto q = au::make_quantity<Src>(x);
         long double e = (long double)x * f;               // exact to ~1e-19 relative
-        if (!(std::fabs(e) < 4e15L)) return;              // keep integers exactly representable in the rounding rep and the oracle
+        if (!(std::fabs(e) < 1e30L) || !(std::fabs(e) < (long double)std::numeric_limits<RR>::max() / 4)) return;   // far inside the rounding rep; beyond 2^53 the bracketing holds up to delta (relative)
         long double delta = 4 * (long double)std::numeric_limits<RR>::epsilon() * (std::fabs(e) + 1) + std::fabs(e) * 2e-19L;
         RR fl = au::floor_in(Dst{}, q), ce = au::ceil_in(Dst{}, q), ro = au::round_in(Dst{}, q);
         static_assert(std::is_same<decltype(au::floor_in(Dst{}, q)), RR>::value && std::is_same<decltype(au::round_in(Dst{}, q)), RR>::value, "rounding rep");
